@@ -217,14 +217,27 @@ def exc_site(e):
     return site
 
 
+_PMAP = {}
+
+
+def _pmap_call(i):
+    return _PMAP["fn"](_PMAP["items"][i])
+
+
 def pmap(fn, items, procs=NPROC, chunksize=None):
-    """fork-based parallel map (workers inherit the imported einx); order-preserving"""
+    """fork-based parallel map (workers inherit the imported einx and the items themselves, so
+    items need not be picklable; results must be); order-preserving"""
     import multiprocessing as mp
+    items = list(items)
     if len(items) < 32 or procs <= 1:
         return [fn(x) for x in items]
+    _PMAP["fn"], _PMAP["items"] = fn, items
     ctx = mp.get_context("fork")
-    with ctx.Pool(procs) as pool:
-        return pool.map(fn, items, chunksize=chunksize or max(1, len(items) // (procs * 8)))
+    try:
+        with ctx.Pool(procs) as pool:
+            return pool.map(_pmap_call, range(len(items)), chunksize=chunksize or max(1, len(items) // (procs * 8)))
+    finally:
+        _PMAP.clear()
 
 
 # ------------------------------------------------------------------ findings / replays / evidence
